@@ -87,7 +87,9 @@ StorageAlts == { P("nostorage", 0, <<>>), P("static", 1, <<T("static")>>), P("ex
                  P("alignas_t", 1, <<T("_Alignas"), T("("), N("typename", 0), T(")")>>) }
 \* declspecs(ctx): ctx 0 = full declaration specifiers, 1 = specifier-qualifier list
 DeclSpecAlts(ctx) ==
-  { P("specs", 0, (IF ctx = 0 THEN <<N("storage", 0)>> ELSE <<>>) \o <<N("qual", 0), N("typespec", 0), N("qualT", 0)>>) }
+  { P("specs", 0, (IF ctx = 0 THEN <<N("storage", 0)>> ELSE <<N("salign", 0)>>) \o <<N("qual", 0), N("typespec", 0), N("qualT", 0)>>) }
+\* an alignment specifier may also head the specifier-qualifier list of a struct member (C11 6.7.2.1)
+SAlignAlts == { P("nosalign", 0, <<>>), P("member_alignas", 1, <<T("_Alignas"), T("("), E(3), T(")")>>) }
 \* declarator(kind): 0 named, 1 abstract (possibly empty)
 PtrAlts == { P("noptr", 0, <<>>), P("ptr", 1, <<T("*"), N("qualT", 0), N("ptr", 0)>>),
              P("ptr_atomic", 1, <<T("*"), T("_Atomic"), T("*")>>) }
@@ -171,7 +173,7 @@ TUAlts == { P("tu1", 0, <<N("ext", 0)>>), P("tu2", 1, <<N("ext", 0), N("ext", 0)
 
 Alts(nt, p) ==
   CASE nt = "expr" -> ExprAlts(p) [] nt = "typespec" -> TypeSpecAlts [] nt = "qual" -> QualAlts [] nt = "storage" -> StorageAlts
-    [] nt = "qualT" -> QualTAlts [] nt = "tagspec" -> TagSpecAlts [] nt = "atomictn" -> AtomicTNAlts
+    [] nt = "salign" -> SAlignAlts [] nt = "qualT" -> QualTAlts [] nt = "tagspec" -> TagSpecAlts [] nt = "atomictn" -> AtomicTNAlts
     [] nt = "declspecs" -> DeclSpecAlts(p) [] nt = "ptr" -> PtrAlts [] nt = "ptr1" -> Ptr1Alts [] nt = "declarator" -> DeclaratorAlts(p)
     [] nt = "direct" -> DirectAlts(p) [] nt = "suffix" -> SuffixAlts [] nt = "params" -> ParamsAlts [] nt = "paramdecl" -> ParamDeclAlts
     [] nt = "typename" -> TypenameAlts [] nt = "structdecl" -> StructDeclAlts [] nt = "enumerator" -> EnumeratorAlts
